@@ -48,6 +48,8 @@ CHECKS["C05"] = ("SlottedCC.tla state graph replayed; in every final state an 18
 CHECKS["C14"] = ("SlottedCC.tla MinCost for astsize/depth = least fixpoint of make/merge; analysis (min size, min depth) read at every class after every call of every replayed path and compared",
          "analysis data of every class equals the specification's least fixpoint after every call (min-size, min-depth); constant folding with modify hook: see level_note", "5 C14")
 NOTES_EXTRA = {"C14": CC_NOTE + " Constant-folding analysis (modify hook) is exercised by the rewrite recorder (rw_record) once built; until then only the two slot-independent lattices are covered."}
+CHECKS["C04"] = ("MC_Fire.tla (SlottedCC + Terms.Inst) + TLC: per rule, every set of balanced alias unions as state with Represented(l.sigma) decided by the closure; replay: build pre-state, apply_rewrites once, require r.sigma represented and equal",
+         "every planted instance whose left side the specification says is represented (also only up to equality) fires, on all explored states within the documented scope", "5 C04")
 PENDING = {}  # filled below for every property without a check yet
 
 man = {
